@@ -200,16 +200,18 @@ CLAIMED = {
              'YAML contents are not translated into Gallina; the file system is runtime.',
         technique='Coq finite theorems + cache state-machine proofs + exhaustive three-way load audit'),
     'C16': dict(
-        text='Machine-checked proof (Coq), PARTIAL: for every rule, molecule and match - no edit sequence adds, removes or transmutes an atom (atoms '
+        text='Machine-checked proof (Coq): for every rule, molecule and match - no edit sequence adds, removes or transmutes an atom (atoms '
              'of every element are conserved), atoms that are not images of labelled atoms are untouched, one product graph per match; every rule that the '
              'reader accepts has a zero electron balance on EVERY labelled atom w.r.t. an independent per-edit specification (so any rule leaving one '
-             'labelled atom unbalanced is rejected, even when imbalances cancel over the rule). The executable '
+             'labelled atom unbalanced is rejected, even when imbalances cancel over the rule); each edit has exactly its declared effect on the pair / '
+             'atom it names (bond removed / added with the declared type / order stepped / radical or charge +-1) and every other pair of atoms '
+             'and every other atom is untouched (frame). The executable '
              'model (rule reader with doubled electron balance incl. the bond-type checks of break/modify, edit application per match) is compared '
              'with the implementation on every run: reading class of generated balanced / unbalanced / mislabelled rule texts and the complete '
              'product graph of every match (atom identity carried by atom-map numbers).',
         design='5 / C16',
-        note=TB + 'Closed under the global context. Unimolecular rules with one reactant fragment; that the applied edit changes the matched atoms exactly as declared is decided by '
-             'the correspondence, not a theorem; atom-type modification, groups, duplicates and constraints are unsupported constructs.',
+        note=TB + 'Closed under the global context. Unimolecular rules with one reactant fragment; that RDKit applies the edit objects as the model does is the correspondence; '
+             ' atom-type modification, groups, duplicates and constraints are unsupported constructs.',
         technique='Coq conservation/frame proofs over the edit semantics + vm_compute correspondence of rule reading and product graphs'),
     'C17': dict(
         text='Machine-checked proof (Coq) for the work list abstract in the species, for EVERY expand function and distinct seeds: the result contains '
